@@ -44,7 +44,7 @@ def resolve(p, boxroot):
     return p
 
 
-def run_case(job):
+def run_case(job, ret_files=False):
     parents, contents, recursive, auto, prefix, pats = job[:6]
     symlink, follow = (job[6], job[7]) if len(job) > 6 else (None, False)
     tree = Tree(parents, contents)
@@ -95,8 +95,11 @@ def run_case(job):
     finally:
         box.cleanup()
     msgs = [m.replace(box.root, "<box>") for m in msgs]
-    return {"viol": msgs[:6], "obs": common.digest(sorted(files)), "n": 1, "nt": common.digest(job) if nt else None,
-            "cls": msgs[0].split(":")[0] if msgs else None}
+    res = {"viol": msgs[:6], "obs": common.digest(sorted(files)), "n": 1, "nt": common.digest(job) if nt else None,
+           "cls": msgs[0].split(":")[0] if msgs else None}
+    if ret_files:
+        res["files"] = files
+    return res
 
 
 def run(ctx):
@@ -140,7 +143,10 @@ def attribute(case, msgs):
         return None
     c[1] = ["indexfile_renamed" if x == "indexfile" else x for x in c[1]]
     c[5] = [p.replace("index.cmake", "index_.cmake") for p in c[5]]
-    return "K4" if not run_case(tuple(c))["viol"] else None
+    if run_case(tuple(c))["viol"]:
+        return None
+    files = run_case(tuple(case), ret_files=True).get("files") or {}
+    return "K4" if dirmodel.k4_known_shape(Tree(case[0], case[1]), files) else None
 
 
 def replay(case):
